@@ -19,7 +19,7 @@ import rx
 import rx.operators as rxops
 import distogram
 
-from ..common import Check, Outcome, Snap, subscribe, bootstrap, norm
+from ..common import Check, Outcome, Snap, subscribe, bootstrap, norm, with_prelude, prelude_tags, shrink_prelude, PRELUDE_TAGS
 from ..muxmon import ttap, tagged_lifetimes
 from .. import progs, model, windows
 
@@ -159,7 +159,7 @@ class Probe:
         return self.user_seed() if self.is_factory else copy.deepcopy(self.seed_backup)
 
 
-def run_ctx(ctx_node, op_builder, items, log):
+def run_ctx(ctx_node, op_builder, items, log, prelude=None):
     """ctx( [ H , op , T(snapshot) , R(raw refs) ] ) on a multiplexed source"""
     inner_ops = [ttap(log, 'H'), op_builder(), ttap(log, 'T'), ttap(log, 'R', deep=False)]
     if ctx_node is None:
@@ -167,7 +167,7 @@ def run_ctx(ctx_node, op_builder, items, log):
     else:
         prog, _ = windows.nest(ctx_node, [['identity']])
         ops_ = _build_with_inner(prog, inner_ops)
-    return subscribe(rx.from_(items).pipe(rs.state.with_memory_store(ops_)), Snap())
+    return progs.run_obs(lambda src: src.pipe(rs.state.with_memory_store(ops_)), items, prelude=prelude, logs=(log,))
 
 
 def _build_with_inner(prog, inner_ops):
@@ -208,10 +208,13 @@ class C09(Check):
                    'dist.update is compared through distogram.count / bounds / mean / bins against a reference fold with the same library']
     ANCHORS = ['rxsci/operators/scan.py', 'rxsci/operators/count.py', 'rxsci/data/to_list.py', 'rxsci/data/to_array.py', 'rxsci/math/dist/__init__.py']
     REQUIRED_TAGS = ['plain', 'mux', 'group', 'roll', 'roll_eq', 'split', 'time_split', 'generic', 'named', 'reduce', 'streaming', 'terminator',
-                     'factory', 'value-seed', 'mutable', 'empty-lifetime', 'scale', 'numpy-items'] + ['op=' + n[0] for n in NAMED]
+                     'factory', 'value-seed', 'mutable', 'empty-lifetime', 'scale', 'numpy-items'] + PRELUDE_TAGS + ['op=' + n[0] for n in NAMED]
     REQUIRED_OBSERVED = ['accumulator_calls', 'terminator_calls', 'factory_calls', 'lifetimes_checked', 'identity_checks']
 
     def generate(self, rng, tier, shard, nshards):
+        return with_prelude(self._generate(rng, tier, shard, nshards), rng, size=lambda c: len(c['items']))
+
+    def _generate(self, rng, tier, shard, nshards):
         n = 7500 if tier == 'quick' else 10 ** 7
         ctxs = list(CONTEXTS)
         for k in range(n):
@@ -274,6 +277,8 @@ class C09(Check):
         out.tags += [case['ctx'].split('>')[0], case['kind']]
         if len(case['items']) >= 1000:
             out.tags.append('scale')
+        if case['ctx'] != 'plain' or case['kind'] == 'named':
+            prelude_tags(case, out)
         if case['kind'] == 'named':
             return self._eval_named(case, out)
         return self._eval_generic(case, out)
@@ -304,7 +309,7 @@ class C09(Check):
             except Exception as e:      # noqa: BLE001
                 s.err = e
         else:
-            s = run_ctx(case['ctx_node'], mk, case['items'], log)
+            s = run_ctx(case['ctx_node'], mk, case['items'], log, prelude=case.get('prelude'))
         return log, probe, s
 
     def _eval_generic(self, case, out):
@@ -459,7 +464,8 @@ class C09(Check):
         ctx = case['ctx']
         log = []
         if ctx == 'plain':
-            s = subscribe(rx.from_(case['items']).pipe(self._named_builder(node)()), Snap())
+            op_ = self._named_builder(node)()
+            s = progs.run_obs(lambda src: src.pipe(op_), case['items'], prelude=case.get('prelude'))
             if s.err is not None and node[0] == 'mean' and node[1] and not case['items']:
                 out.discarded = 'mean(reduce) of an empty observable'
                 return out
@@ -474,7 +480,7 @@ class C09(Check):
             if [self._dnorm(v) for v in s.out] != [self._dnorm(v) for v in want]:
                 out.fail('differs-from-definition', op=node, items=case['items'], want=[repr(w)[:80] for w in want[:10]], got=[repr(g)[:80] for g in s.out[:10]])
             return out
-        s = run_ctx(case['ctx_node'], self._named_builder(node), case['items'], log)
+        s = run_ctx(case['ctx_node'], self._named_builder(node), case['items'], log, prelude=case.get('prelude'))
         lts = self._lifetimes(log, out) if s.err is None else None
         # mean(reduce) of an empty key is outside the domain: decide from the observed lifetimes
         if node[0] == 'mean' and node[1]:
@@ -510,6 +516,7 @@ class C09(Check):
         return out
 
     def shrink(self, case):
+        yield from shrink_prelude(case)
         items = case['items']
         for k in range(len(items)):
             yield dict(case, items=items[:k] + items[k + 1:])
